@@ -136,33 +136,27 @@ func noBackslash(b []byte) bool {
 	return ok
 }
 
-// parseArb: arbitrary input of n bytes: no panic, output at most n bytes, input without backslash unchanged.
+// parseArb: arbitrary input of n bytes: no panic, output at most n bytes (also when dst has room for more),
+// same result into an exact-size dst, input without backslash unchanged.
 func parseArb(which int) {
 	n := vx.Param("n", 4)
 	src := vx.Bytes(n, "src")
 	orig := append([]byte(nil), src...)
-	dst := make([]byte, n)
-	var m int
-	var ts string
-	switch which {
-	case 0:
-		m = strz.OctalParse(dst, src)
-		ts = strz.OctalParseToString(string(orig))
-	case 1:
-		m = strz.HexParse(dst, src)
-		ts = strz.HexParseToString(string(orig))
-	case 2:
-		m = strz.UnicodeParse(dst, src)
-		ts = strz.UnicodeParseToString(string(orig))
-	case 3:
-		m = strz.Utf16Parse(dst, src)
-		ts = strz.Utf16ParseToString(string(orig))
-	}
-	vx.Assert(vx.And(m >= 0, m <= n), "Parse produces at most len(input) bytes")
+	parse := [](func(dst, src []byte) int){strz.OctalParse, strz.HexParse, strz.UnicodeParse, strz.Utf16Parse}[which]
+	toString := [](func(string) string){strz.OctalParseToString[string], strz.HexParseToString[string], strz.UnicodeParseToString[string], strz.Utf16ParseToString[string]}[which]
+	dst := make([]byte, n+vx.Param("room", 8))
+	m := parse(dst, src)
+	vx.AssertSig(vx.And(m >= 0, m <= n), "Parse produces at most len(input) bytes", "parse-output-length")
 	vx.Assert(vx.EqBytes(src, orig), "Parse does not modify its input")
-	vx.Assert(vx.EqStr(ts, string(dst[:m])), "ParseToString agrees with Parse")
-	vx.Assert(vx.Implies(noBackslash(orig), vx.EqBytes(dst[:m], orig)), "input without backslash is returned unchanged")
-	vx.Observe("out", dst[:m])
+	if m >= 0 && m <= n {
+		exact := make([]byte, n)
+		m2 := parse(exact, src)
+		vx.Assert(m2 == m && vx.EqBytes(exact[:m], dst[:m]), "Parse into a destination of exactly len(input) bytes gives the same result as into a larger one")
+		ts := toString(string(orig))
+		vx.Assert(vx.EqStr(ts, string(dst[:m])), "ParseToString agrees with Parse")
+		vx.Assert(vx.Implies(noBackslash(orig), vx.EqBytes(dst[:m], orig)), "input without backslash is returned unchanged")
+		vx.Observe("out", dst[:m])
+	}
 }
 
 func OctArb() { parseArb(0) }
